@@ -15,7 +15,7 @@ pub(crate) mod verif_grease {
         Grease { enabled: pct > 0, dist: Bernoulli::from_ratio(u32::from(pct), 100), prng: SmallRng::from_seed(seed) }
     }
 
-    //@ family c02_grease props=C02,C08 mode=strict mod=grease::verif_grease must_cover=COVER:grease-end
+    //@ family c02_grease props=C02 mode=strict mod=grease::verif_grease must_cover=COVER:grease-end
     //@ harness c02_grease_off_never_corrupts tier=quick shape="fault_percentage 0, any PRNG state (128-bit seed symbolic), 3 consecutive draws"
     /// With fault injection off nothing is ever corrupted, whatever the PRNG state.
     #[cfg_attr(kani, kani::proof)]
